@@ -205,6 +205,30 @@ func (p *pushLog) serviceKeyDropped(proxyID, hostname string) bool {
 	return false
 }
 
+// keyDropped reports whether some push for the proxy carried a key with the prefix while the request handed to the
+// generators did not.
+func (p *pushLog) keyDropped(proxyID, prefix string) bool {
+	p.mu.Lock()
+	defer p.mu.Unlock()
+	for _, e := range p.by[proxyID] {
+		for _, k := range e.in {
+			if !strings.HasPrefix(k, prefix) {
+				continue
+			}
+			kept := false
+			for _, o := range e.out {
+				if o == k {
+					kept = true
+				}
+			}
+			if !kept {
+				return true
+			}
+		}
+	}
+	return false
+}
+
 func keyStrings(req *model.PushRequest) []string {
 	if req == nil {
 		return nil
@@ -227,6 +251,14 @@ func (s *server) causeOf(p proxySpec, t, name string) string {
 		if h != "" && s.kube {
 			// strata with Kubernetes objects: how did the hostname last reach this proxy's push requests?
 			return s.pushes.hostClass(p.name+"."+p.ns, string(h))
+		}
+	}
+	if t == envoyclient.LDS || (t == envoyclient.CDS && strings.HasPrefix(name, "inbound|")) {
+		// same defect as the dropped service key, seen for a PeerAuthentication of the root namespace or of the proxy's own:
+		// its deletion was already visible in the push context of an EARLIER push that recomputed the sidecar scope for
+		// another key, so neither the current nor the previous scope lists it when its own key arrives, and the key is dropped
+		if s.pushes.keyDropped(p.name+"."+p.ns, "PeerAuthentication/"+rootNS+"/") || s.pushes.keyDropped(p.name+"."+p.ns, "PeerAuthentication/"+p.ns+"/") {
+			return "peerauthentication-key-dropped-by-proxy-dependency-filter"
 		}
 	}
 	if s.kube && (resClass(t, name) == "inbound" || resClass(t, name) == "virtualInbound") && s.pushes.ownServiceKeyDropped(p.name+"."+p.ns) {
@@ -280,18 +312,81 @@ func (s *server) idleCond() bool {
 }
 
 func quiesce(servers ...*server) bool {
-	ok, why := idle.Wait(func() bool {
+	noteProgress()
+	defer noteProgress()
+	cond := func() bool {
 		for _, s := range servers {
 			if s != nil && !s.idleCond() {
 				return false
 			}
 		}
 		return true
-	}, 90*time.Second)
-	if !ok {
-		fmt.Println("QUIESCE-LOST", why)
 	}
-	return ok
+	inbound := func() (n int64) {
+		for _, s := range servers {
+			if s != nil {
+				n += s.srv.Discovery.InboundUpdates.Load()
+			}
+		}
+		return n
+	}
+	// The detector has a known imperfection: under heavy load there are (rare) moments between an input being stored and
+	// its handler calling ConfigUpdate in which every goroutine looks parked in two consecutive snapshots. So after the
+	// detector says idle a little real time passes and the process must still look idle with no update accepted in
+	// between; otherwise wait again. Wall clock only makes this more conservative. The oracles additionally re-check
+	// every mismatch after a grace window (regrace) before they triage it.
+	deadline := time.Now().Add(90 * time.Second)
+	buf := make([]byte, 1<<20)
+	for {
+		left := time.Until(deadline)
+		if left <= 0 {
+			fmt.Println("QUIESCE-LOST", "never stayed idle over the confirmation window")
+			return false
+		}
+		ok, why := idle.Wait(cond, left)
+		if !ok {
+			fmt.Println("QUIESCE-LOST", why)
+			return false
+		}
+		in := inbound()
+		time.Sleep(2 * time.Millisecond)
+		if !cond() {
+			continue
+		}
+		if still, _, _ := idle.Snapshot(&buf); still && cond() && inbound() == in {
+			return true
+		}
+	}
+}
+
+// graceWindow is the real time the persistence re-check of the oracles lets pass (see regrace).
+const graceWindow = 50 * time.Millisecond
+
+// regrace is the persistence re-check every oracle makes before it triages a mismatch: no input, no forced push, just
+// quiesce, let a grace window of real time pass, quiesce again. The caller then re-takes its snapshots and recomputes the
+// differences: genuine staleness never repairs itself without a push, whereas a comparison made while the control plane
+// had not even started on the batch (see quiesce) does. Wall clock never decides a verdict here, it only delays one.
+func regrace(servers ...*server) bool {
+	if !quiesce(servers...) {
+		return false
+	}
+	time.Sleep(graceWindow)
+	return quiesce(servers...)
+}
+
+// premature records that the mismatches of a comparison were gone after the persistence re-check.
+func (w *world) premature(oracle string, gone int) {
+	w.c.Count("mismatches_gone_after_requiesce", gone)
+	w.c.Count("comparisons_repeated_after_premature_quiescence", 1)
+	fmt.Printf("PREMATURE-QUIESCENCE prop=%s case=%s batch=%d oracle=%s gone=%d\n", w.c.Prop.ID, w.caseName, w.applied-1, oracle, gone)
+}
+
+// live is the server the clients of the world are connected to right now (C05 replaces it on a restart).
+func (w *world) live() *server {
+	if w.cur != nil {
+		return w.cur
+	}
+	return w.a
 }
 
 func firstLine(s string) string {
@@ -488,6 +583,10 @@ type world struct {
 	hist     [][]op
 	applied  int               // batches applied
 	scenInfo map[string]string // c05: client name -> scenario text
+	caseName string            // for diagnostics only
+	// selectors of every version of every Sidecar applied in this history (namespace/name -> label selectors; nil selects all)
+	sidecarSel map[string][]map[string]string
+	cur        *server // c05: the server the clients are connected to now, if it is not a (see live)
 	// a Service exported to nobody (exportTo "~") was touched since the previous checkpoint
 	touchedUnexported bool
 	// pod-backed proxies whose pod was relabelled while not ready and has not become ready since (finding F2: the
@@ -611,8 +710,46 @@ func (w *world) applyBatch(s *server, b []op) {
 				w.liveSE[o.NS+"/"+o.Name] = append([]string(nil), se.Hosts...)
 			}
 		}
+		if o.K == nil && o.Kind == gvk.Sidecar {
+			if sc, ok := o.Spec.(*networking.Sidecar); ok {
+				if w.sidecarSel == nil {
+					w.sidecarSel = map[string][]map[string]string{}
+				}
+				w.sidecarSel[o.NS+"/"+o.Name] = append(w.sidecarSel[o.NS+"/"+o.Name], sc.GetWorkloadSelector().GetLabels())
+			}
+		}
 		w.kindsCP[o.Kind.Kind] = true
 	}
+}
+
+// sidecarKeyDropped: the push log shows the key of a Sidecar dropped for the proxy by the dependency filter although a
+// version of that Sidecar applied in this history selected the proxy (or everything in its namespace). Same defect as
+// the dropped service key: the Sidecar's deletion (or the change that made it stop selecting the proxy) was already
+// visible in the push context of an earlier push, which recomputed the scope for another key and generated only that
+// key's resources; when the Sidecar's own key arrives neither the current nor the previous scope depends on it.
+func (w *world) sidecarKeyDropped(s *server, p proxySpec) bool {
+	for key, sels := range w.sidecarSel {
+		ns := key[:strings.IndexByte(key, '/')]
+		if ns != p.ns && ns != rootNS {
+			continue
+		}
+		selected := false
+		for _, sel := range sels {
+			m := true
+			for k, v := range sel {
+				if p.labels[k] != v {
+					m = false
+				}
+			}
+			if m {
+				selected = true
+			}
+		}
+		if selected && s.pushes.keyDropped(p.name+"."+p.ns, "Sidecar/"+key) {
+			return true
+		}
+	}
+	return false
 }
 
 func (w *world) changedKinds() string {
@@ -724,20 +861,76 @@ func (w *world) checkAgainstFresh(s *server, clients []*envoyclient.Client, pidx
 	// of all clients at once, so nothing may be looked at for the first time after them
 	helds := make([]map[string]map[string]*anypb.Any, len(clients))
 	alldiffs := make([][]diff, len(clients))
-	anyDiff := false
-	for i, cl := range clients {
-		helds[i] = cl.Snapshot()
-		for _, m := range helds[i] {
-			compared += len(m)
+	take := func() (n int) {
+		compared = 0
+		for i, cl := range clients {
+			helds[i] = cl.Snapshot()
+			for _, m := range helds[i] {
+				compared += len(m)
+			}
+			alldiffs[i] = compare(helds[i], fresh[pidx[i]], "long-lived", "fresh")
+			n += len(alldiffs[i])
 		}
-		alldiffs[i] = compare(helds[i], fresh[pidx[i]], "long-lived", "fresh")
-		if len(alldiffs[i]) > 0 {
-			anyDiff = true
-			c.Count("mismatches_before_triage", len(alldiffs[i]))
+		return n
+	}
+	first := take()
+	if first == 0 {
+		return compared, true
+	}
+	firstSet := map[string]bool{}
+	for i := range clients {
+		for _, d := range alldiffs[i] {
+			firstSet[fmt.Sprint(i, " ", d)] = true
 		}
 	}
-	if !anyDiff {
+	// persistence re-check (see regrace): no input, no forced push; both sides are taken again
+	if !regrace(s) {
+		c.Inconclusive("persistence re-check did not quiesce")
+		return compared, false
+	}
+	// first against the reference already taken: what is gone now was the long-lived side catching up
+	take()
+	still := map[string]bool{}
+	for i := range clients {
+		for _, d := range alldiffs[i] {
+			still[fmt.Sprint(i, " ", d)] = true
+		}
+	}
+	gone := 0
+	for k := range firstSet {
+		if !still[k] {
+			gone++
+		}
+	}
+	if gone > 0 {
+		w.premature(prefix+":fresh-control-plane", gone)
+	}
+	if len(still) == 0 {
 		return compared, true
+	}
+	// then against a reference taken again: what is gone now differed between two fresh control planes (a reference read
+	// too early, or instance nondeterminism such as the informer start order), which the triage would have excluded anyway
+	if fresh, okq = freshStates(cfgs, kobjs, 2*time.Millisecond, s); !okq {
+		c.Inconclusive("fresh server did not quiesce")
+		return compared, false
+	}
+	second := take()
+	for i := range clients {
+		for _, d := range alldiffs[i] {
+			delete(still, fmt.Sprint(i, " ", d))
+		}
+	}
+	if len(still) > 0 {
+		c.Count("mismatches_gone_with_second_fresh_control_plane", len(still))
+		fmt.Printf("FRESH-REFERENCE-DIFFERED prop=%s case=%s batch=%d oracle=%s gone=%d\n", c.Prop.ID, w.caseName, w.applied-1, prefix+":fresh-control-plane", len(still))
+	}
+	if second == 0 {
+		return compared, true
+	}
+	for i := range clients {
+		if len(alldiffs[i]) > 0 {
+			c.Count("mismatches_before_triage", len(alldiffs[i]))
+		}
 	}
 	// triage 1: does a forced push change the long-lived clients' copies?
 	if !forcePush(s) {
@@ -766,7 +959,9 @@ func (w *world) checkAgainstFresh(s *server, clients []*envoyclient.Client, pidx
 		}
 		var classes map[string]string
 		if w.st != "" {
+			addrNote = w.addrNoteK
 			classes = classifyDiffs(diffs, held2, fresh[pidx[i]], w.hostInfo)
+			addrNote = nil
 		}
 		for _, d := range diffs {
 			t, n := d.Type, d.Name
@@ -785,6 +980,9 @@ func (w *world) checkAgainstFresh(s *server, clients []*envoyclient.Client, pidx
 			if same(r2, rf) {
 				// the client held something else until a forced push made the server resend it
 				cause := s.causeOf(proxies[pidx[i]], t, n)
+				if (cause == "unknown" || strings.HasPrefix(cause, "host-")) && w.sidecarKeyDropped(s, proxies[pidx[i]]) {
+					cause = "sidecar-key-dropped-by-proxy-dependency-filter"
+				}
 				if cause == "unknown" && svcKeyDropped && (t == envoyclient.LDS || t == envoyclient.RDS) {
 					cause = "co-occurs-with-service-key-dropped-by-proxy-dependency-filter"
 				}
@@ -848,7 +1046,7 @@ func (w *world) checkAgainstFresh(s *server, clients []*envoyclient.Client, pidx
 			if w.st != "" {
 				// new strata: root-cause hint before the proxy type, so that a family can be named by prefix
 				cls := classes[d.String()]
-				if pc := w.proxyCause(s, proxies[pidx[i]]); pc != "" {
+				if pc := w.proxyCause(s, proxies[pidx[i]]); pc != "" && !shapeSpecific(cls) {
 					// the proxy's own state (workload labels, service targets) is known to be stale: everything derived from it differs
 					cls = pc
 				}
@@ -949,8 +1147,7 @@ func histHash(h [][]op) string {
 
 // A stratum is a family of cases with its own case names, PRNG streams, proxies and world. The
 // config-store stratum ("c") is the one the checks were first qualified on; its cases, streams and
-// keys never change. Strata are switched with XDSCONV_STRATA (comma separated); strata that are not
-// qualified yet are off by default.
+// keys never change. Strata are switched with XDSCONV_STRATA (comma separated).
 type stratum struct {
 	id        string // "" | "k" | "z" (as it appears in keys)
 	sw        string // name in XDSCONV_STRATA
@@ -967,7 +1164,9 @@ var (
 	strata   = []*stratum{stratumC, stratumK}
 )
 
-const defaultStrata = "c"
+// All three strata are qualified (silent at seeds 1..5 quick and once thorough with the registered known findings, see
+// EXTEND-STATUS.md) and on by default; XDSCONV_STRATA=c restores the original scope.
+const defaultStrata = "c,k,z"
 
 func (st *stratum) enabled() bool {
 	v := os.Getenv("XDSCONV_STRATA")
@@ -1093,6 +1292,7 @@ func historyCase(c *vh.Ctx, st *stratum, i int, c01, c03 bool) {
 	}
 	defer w.close()
 	w.hist = hist
+	w.caseName = fmt.Sprintf("%s/%d", st.histCase, i)
 	if os.Getenv("XDSCONV_PRINT_HIST") != "" {
 		for _, l := range histText(hist, len(hist)) {
 			fmt.Println("HIST " + l)
@@ -1171,25 +1371,60 @@ func historyCase(c *vh.Ctx, st *stratum, i int, c01, c03 bool) {
 				diffs  []diff
 			}
 			var pds []pairDiff
-			for pi := range proxies {
-				if w.delta[pi] == nil {
-					continue
+			collect := func(count bool) bool {
+				pds = nil
+				for pi := range proxies {
+					if w.delta[pi] == nil {
+						continue
+					}
+					hs, ok := w.sotwView(w.a, pi)
+					if !ok {
+						c.Inconclusive("fresh SotW client on the same server did not quiesce")
+						return false
+					}
+					hd := w.delta[pi].Snapshot()
+					if count {
+						for _, m := range hs {
+							c.Count("resources_compared", len(m))
+						}
+						if w.sotw[pi] == nil {
+							c.Count("delta_vs_fresh_sotw_on_same_server", 1)
+						}
+					}
+					if diffs := compare(hd, hs, "delta", "sotw"); len(diffs) > 0 {
+						pds = append(pds, pairDiff{pi, hs, hd, diffs})
+					}
 				}
-				hs, ok := w.sotwView(w.a, pi)
-				if !ok {
-					c.Inconclusive("fresh SotW client on the same server did not quiesce")
+				return true
+			}
+			if !collect(true) {
+				return
+			}
+			if len(pds) > 0 {
+				// persistence re-check (see regrace): no input, no forced push; both twins are read again
+				firstSet := map[string]bool{}
+				for _, pd := range pds {
+					for _, d := range pd.diffs {
+						firstSet[fmt.Sprint(pd.pi, " ", d)] = true
+					}
+				}
+				if !regrace(w.a) {
+					c.Inconclusive("persistence re-check did not quiesce")
 					return
 				}
-				hd := w.delta[pi].Snapshot()
-				for _, m := range hs {
-					c.Count("resources_compared", len(m))
+				if !collect(false) {
+					return
 				}
-				if w.sotw[pi] == nil {
-					c.Count("delta_vs_fresh_sotw_on_same_server", 1)
+				for _, pd := range pds {
+					for _, d := range pd.diffs {
+						delete(firstSet, fmt.Sprint(pd.pi, " ", d))
+					}
 				}
-				if diffs := compare(hd, hs, "delta", "sotw"); len(diffs) > 0 {
-					c.Count("mismatches_before_triage", len(diffs))
-					pds = append(pds, pairDiff{pi, hs, hd, diffs})
+				if len(firstSet) > 0 {
+					w.premature("c03:delta-vs-sotw", len(firstSet))
+				}
+				for _, pd := range pds {
+					c.Count("mismatches_before_triage", len(pd.diffs))
 				}
 			}
 			if len(pds) > 0 {
@@ -1225,17 +1460,21 @@ func historyCase(c *vh.Ctx, st *stratum, i int, c01, c03 bool) {
 							continue
 						}
 						cause := w.a.causeOf(proxies[pi], d.Type, d.Name)
+						if (cause == "unknown" || strings.HasPrefix(cause, "host-")) && w.sidecarKeyDropped(w.a, proxies[pi]) {
+							cause = "sidecar-key-dropped-by-proxy-dependency-filter"
+						}
 						ckey := "cause=" + cause
 						if cause == "unknown" {
 							ckey += ":changed=" + kindsOf(b)
 						}
 						if st.id != "" {
-							if _, _, h, _ := model.ParseSubsetKey(d.Name); h != "" && w.hostSquatted(string(h)) {
-								cause = "hostname-served-by-serviceentry-and-kubernetes-in-one-namespace"
-							} else if x, y := hd[d.Type][d.Name], hs[d.Type][d.Name]; d.Type == envoyclient.CDS && x != nil && y != nil &&
-								sanRe.ReplaceAllString(resourceText(d.Type, x), "") == sanRe.ReplaceAllString(resourceText(d.Type, y), "") {
-								cause = "subject-alt-names-only"
+							// the same root-cause recognisers as the C01 oracle of these strata (proxy state, export, two registries on
+							// one hostname, headless TLS inference, SAN-only shape)
+							class := ""
+							if _, _, h, _ := model.ParseSubsetKey(d.Name); h != "" {
+								class = w.hostInfo(string(h))
 							}
+							cause = w.refineCause(cause, proxies[pi], d.Type, d.Name, d, class, hd[d.Type][d.Name], hs[d.Type][d.Name])
 							ckey = "cause=" + cause // volatile detail (changed kinds) stays in the message
 						}
 						c.Violation(fmt.Sprintf("%s:delta-differs-from-sotw:%s:%s:%s:proxy=%s", w.pfx("c03"), ckey, whatKey2(d.What), envoyclient.Short(d.Type), proxies[pi].ptype),
